@@ -12,7 +12,10 @@ import (
 // bubble. Non-trivial: a dial function that did not answer at once AND (a dial
 // ended by the manager's dial deadline OR a generated Remove / Reconnect / Add
 // landing while a Connection call of its target - or, for an Add, a dial to its
-// address - is outstanding). TestReplay needs no routing: the scenario says real=true.
+// address - is outstanding), OR a dial function of a named dialer was called again
+// for an address after a call of it for that address had failed (the target
+// configuration as a dimension, config.go). TestReplay needs no routing: the
+// scenario says real=true.
 func TestC13Real(t *testing.T) {
 	if !vstat.Enabled("C13") {
 		t.Skip()
